@@ -119,16 +119,16 @@ CHECKS = {
    text="nvm_deserialize under contract for every byte string up to the 100 MB limit (loop contracts, X over section kind): non-NULL => "
         "magic/version/section_count valid AND the checksum was computed over exactly (data+32,size-32), equals the stored one, and was "
         "checked before anything was built; every directory entry of an accepted file lies inside the file; loading is all-or-nothing (an accepted file had every "
-        "known section consumed exactly; no entry loop stops while a complete entry is left). Section arms: code, debug, other (quick), functions (thorough), imports "
-        "(bounded); the strings arm is OPEN (exhausts 44 GB) - the string pool is covered by the fixed-shape round trip C10.rt.shape.strings only. CRC burst lemmas L0-L3 on the REAL "
+        "known section consumed exactly; no entry loop stops while a complete entry is left). Section arms: code, debug, other (quick), functions (thorough); "
+        "the strings and imports arms are OPEN (44 GB / no bounded run closes since the all-or-nothing repair) - those two sections are covered by the fixed-shape round trips C10.rt.shape.strings / .import only. CRC burst lemmas L0-L3 on the REAL "
         "table and the mechanically extracted REAL loop body over the full 2^32/2^40 domains, loop coverage contract of nvm_crc32, whole-function value against the "
         "bit-serial CRC-32 of the property's polynomial for buffers <= 6 bytes (bounded), header validator contract. "
         "The induction from the lemmas to 'every burst <= 32 bits is refused' is argued (glue), not machine-checked.",
-   ref="DESIGN 5/C12", note=TB + " Tails / damage wider than 32 bits: probabilistic, not claimed. imports arm of the loader: bounded stand-in.",
+   ref="DESIGN 5/C12", note=TB + " Tails / damage wider than 32 bits: probabilistic, not claimed.",
    tech="CBMC DFCC function + loop contracts on the real nvm_format.c; algebraic lemmas on the real CRC table/step"),
  "C13": dict(
    cat="proof",
-   text="Loader: memory-safe and terminating for all byte strings <= 100 MB (loop contracts with decreases; X over section kind: code, debug, other, functions; imports arm bounded; strings arm OPEN). "
+   text="Loader: memory-safe and terminating for all byte strings <= 100 MB (loop contracts with decreases; X over section kind: code, debug, other, functions; strings and imports arms OPEN). "
         "Verifier: verify_structure / verify_function / nvm_verify under contracts with loop contracts: safe, terminating, ok => MOD_WF (function ranges without "
         "wrap, jump targets, call/string/import/local indices, every function walked to its end). VM: one real vm_core_execute step per opcode from any "
         "VM_INV state with a materialised footprint: no memory fault, no fatal arithmetic, VM_INV again, no decode error on a verified instruction. "
